@@ -1520,8 +1520,7 @@ func (self *Fork) lockstepPart(i int, split *syntax.SplitExp) *ForkSourcePart {
 	if split == nil {
 		return nil
 	}
-	set, ok := split.Source.(*syntax.MapCallSet)
-	if !ok {
+	if split.Source == nil {
 		return nil
 	}
 	for k, other := range self.forkId {
@@ -1529,29 +1528,16 @@ func (self *Fork) lockstepPart(i int, split *syntax.SplitExp) *ForkSourcePart {
 			other.Id.IndexSource() != nil {
 			continue
 		}
-		if other.Split.Source == split.Source {
+		if _, isSet := split.Source.(*syntax.MapCallSet); isSet &&
+			other.Split.Source == split.Source {
 			return other
 		}
-		var fqid string
 		for _, root := range self.node.call.ForkRoots() {
 			if root.Call() == other.Split.Call {
-				fqid = root.GetFqid()
+				if sourceIsMergedOutputOf(split.Source, root.GetFqid()) {
+					return other
+				}
 				break
-			}
-		}
-		if fqid == "" {
-			continue
-		}
-		for _, src := range set.Sources {
-			switch src := src.(type) {
-			case *syntax.BoundReference:
-				if src.Exp != nil && src.Exp.Id == fqid && src.Exp.OutputId == "" {
-					return other
-				}
-			case *syntax.RefExp:
-				if src.Id == fqid && src.OutputId == "" {
-					return other
-				}
 			}
 		}
 	}
